@@ -12,6 +12,10 @@
 (*   impl     process-wide  get_implicit_environment memo used by Template()  *)
 (*   tmpl     per object    the parsed node list of every BoundTemplate that  *)
 (*            exists (kept by the caller, or by a caching loader's cache)     *)
+(*   cbind    per object    the globals a caching loader's shared            *)
+(*            BoundTemplate is bound to; hold: which object the caller holds  *)
+(*            for a template it asked the loader for (the shared one or its   *)
+(*            own) and the globals it asked for                               *)
 (*   data     per object    the data objects the caller passes in, which it   *)
 (*            may pass again to a later render                                *)
 (* and the state that must NOT outlive a render: the RenderContext (ctx:      *)
@@ -33,7 +37,7 @@ CONSTANTS MaxHist,      \* number of renders in a history
           Deviations,   \* subset of AllDeviations; {} = the required behaviour
           Cap           \* capacity of the date memo (10 in the code)
 
-AllDeviations == {"MemoKeyedByEquality", "SortInPlace", "StateOnNode", "ContextKeptOnTemplate"}
+AllDeviations == {"MemoKeyedByEquality", "SortInPlace", "StateOnNode", "ContextKeptOnTemplate", "CacheRebindsGlobals"}
 Dev(x) == x \in Deviations
 
 -----------------------------------------------------------------------------
@@ -65,11 +69,15 @@ DateRep(v) == CASE v \in {"i1", "b1"} -> "epoch1"          \* fromtimestamp(1) =
 (* BoundTemplate of a partial is shared by all later renders); `keep`: the    *)
 (* caller keeps the BoundTemplate and renders it again (otherwise it parses   *)
 (* the source anew for each render); `implicit`: liquid.Template(source).     *)
-Env == [ E0 |-> [auto |-> FALSE, caching |-> TRUE,  keep |-> TRUE,  implicit |-> FALSE, delims |-> "std"],
-         EA |-> [auto |-> TRUE,  caching |-> TRUE,  keep |-> TRUE,  implicit |-> FALSE, delims |-> "std"],
-         E1 |-> [auto |-> FALSE, caching |-> FALSE, keep |-> FALSE, implicit |-> FALSE, delims |-> "std"],
-         EI |-> [auto |-> FALSE, caching |-> FALSE, keep |-> TRUE,  implicit |-> TRUE,  delims |-> "std"],
-         EJ |-> [auto |-> TRUE,  caching |-> FALSE, keep |-> FALSE, implicit |-> TRUE,  delims |-> "std"] ]
+Env == [ E0 |-> [auto |-> FALSE, caching |-> TRUE,  keep |-> TRUE,  implicit |-> FALSE, delims |-> "std", flags |-> FALSE],
+         EA |-> [auto |-> TRUE,  caching |-> TRUE,  keep |-> TRUE,  implicit |-> FALSE, delims |-> "std", flags |-> FALSE],
+         E1 |-> [auto |-> FALSE, caching |-> FALSE, keep |-> FALSE, implicit |-> FALSE, delims |-> "std", flags |-> FALSE],
+         EI |-> [auto |-> FALSE, caching |-> FALSE, keep |-> TRUE,  implicit |-> TRUE,  delims |-> "std", flags |-> FALSE],
+         EJ |-> [auto |-> TRUE,  caching |-> FALSE, keep |-> FALSE, implicit |-> TRUE,  delims |-> "std", flags |-> FALSE],
+         \* same delimiters and mode as E0 (so the same __hash__) but ternary / `not` / keyword syntax switched on at parse time
+         EF |-> [auto |-> FALSE, caching |-> TRUE,  keep |-> TRUE,  implicit |-> FALSE, delims |-> "std", flags |-> TRUE],
+         \* other delimiters: a second key in the lexer memo
+         ED |-> [auto |-> FALSE, caching |-> TRUE,  keep |-> TRUE,  implicit |-> FALSE, delims |-> "alt", flags |-> FALSE] ]
 
 (* Data objects: x a scalar, f a format, a an array that is ALSO reachable    *)
 (* as h.l (one shared list object), c the integer 7.                          *)
@@ -98,8 +106,15 @@ TmplBase ==
           TI |-> << O("incr", "q", ""), O("inc", "TP", ""), O("ren", "TP", ""), O("incr", "q", ""), O("cycle", "g", "") >>,
           TP |-> << O("date", "x", "f"), O("incr", "q", ""), O("cycle", "g", "") >>,
           TX |-> << O("pure", "inherit", "") >>,
-          TY |-> << O("pure", "with", ""), O("pure", "tablerow", ""), O("pure", "case", "") >> ]
-Partials == {"TP"}
+          TY |-> << O("pure", "with", ""), O("pure", "tablerow", ""), O("pure", "case", ""), O("pure", "loops", ""), O("out", "a", "") >>,
+          TT |-> << O("pure", "ternary", ""), O("incr", "q", "") >>,
+          \* TG is asked of the loader by the caller, env.get_template("TG", globals = {gl: 5}); TIG includes and renders it
+          TG |-> << O("out", "gl", ""), O("incr", "q", "") >>,
+          TIG |-> << O("inc", "TG", ""), O("ren", "TG", ""), O("out", "gl", "") >> ]
+Partials == {"TP", "TG"}
+ViaLoader == {"TG"}                  \* top-level templates the caller gets from the loader, bound to CallerGlobals
+CallerGlobals == "5"
+NoGlobals == ""
 (* The sweep family: every array-capable filter applied to every shape of data structure; the result is not interpreted  *)
 (* here (a "pure" operation: some function of the arguments), the claim is DataUnchanged and HistoryIndependent.          *)
 SweepFilters == {"compact", "concat", "default", "find", "find_index", "first", "has", "index", "join", "json", "last", "map",
@@ -119,13 +134,15 @@ PoolFull == << J("TD", "dU", "E0"), J("TD", "dP", "E0"), J("TD", "dM", "E0"), J(
                J("TW", "dU", "E0"), J("TR", "dU", "E0"), J("TW", "dP", "EI"), J("TR", "dP", "EI"),
                J("TA", "dU", "E0"), J("TS", "dU", "E0"), J("TA", "dI", "E1"),
                J("TI", "dU", "E0"), J("TI", "dP", "E0"), J("TI", "dM", "EA"),
-               J("TX", "dU", "E0"), J("TY", "dU", "E0") >>
-PoolCore == << J("TD", "dU", "E0"), J("TD", "dP", "E0"), J("TD", "dF", "E0"), J("TD", "dI", "E0"),
-               J("TD", "dM", "EA"), J("TD", "dU", "EA"),
+               J("TX", "dU", "E0"), J("TY", "dU", "E0"),
+               J("TT", "dU", "EF"), J("TT", "dU", "E0"), J("TD", "dP", "ED"), J("TW", "dU", "ED"),
+               J("TG", "dU", "E0"), J("TIG", "dU", "E0"), J("TG", "dU", "E1"), J("TIG", "dP", "E1") >>
+PoolCore == << J("TD", "dU", "E0"), J("TD", "dP", "E0"), J("TD", "dM", "EA"),
                J("TF", "dI", "E0"),
                J("TW", "dU", "E0"), J("TR", "dU", "E0"),
                J("TA", "dU", "E0"), J("TS", "dU", "E0"),
-               J("TI", "dP", "E0") >>
+               J("TI", "dP", "E0"), J("TT", "dU", "EF"), J("TT", "dU", "E0"),
+               J("TG", "dU", "E0"), J("TIG", "dU", "E0") >>
 PoolSweep == SetToSeq({ J(id, "dU", "E0") : id \in SweepIds })
 Pool == IF Family = "core" THEN PoolCore ELSE IF Family = "sweep" THEN PoolSweep ELSE PoolFull
 N == Len(Pool)
@@ -141,8 +158,10 @@ VARIABLES hist,    \* finished renders: sequence of [job (index in Pool), res (t
           lexm, parm, impl,
           tmpl,    \* [<<env, template>> -> operations] for every BoundTemplate alive
           kept,    \* deviation ContextKeptOnTemplate only: [<<env, template>> -> ctx]
+          cbind,   \* [<<env, template>> -> globals the caching loader's shared object is bound to]
+          hold,    \* [<<env, template>> -> [alias: the caller holds the shared object, own: the globals it asked for]]
           data     \* [data id -> record]  the caller's objects
-vars == <<hist, phase, cur, pc, ctx, out, memo, lexm, parm, impl, tmpl, kept, data>>
+vars == <<hist, phase, cur, pc, ctx, out, memo, lexm, parm, impl, tmpl, kept, cbind, hold, data>>
 
 NoCtx == [cnt |-> <<>>, loc |-> <<>>, cyc |-> <<>>, ifc |-> <<"">>, stop |-> <<>>, mac |-> {}]
 (* small finite maps as sequences of <<key, value>> pairs                     *)
@@ -177,7 +196,7 @@ DateCall(m, x, f, e) ==
               <<r, IF Len(m2) > Cap THEN Tail(m2) ELSE m2>>
 
 (* ---- one operation -------------------------------------------------------- *)
-(* st = [c: context, m: memo, d: data record, o: tokens, err: BOOLEAN, nd: the operation as (re)written] *)
+(* st = [c: context, m: memo, d: data record, g: globals of the top-level template, o: tokens, err: BOOLEAN, nd: the operation as (re)written] *)
 ArrOf(d, path) == d.a                                     \* "a" and "h.l" are the same list object
 Uniq(s) == LET RECURSIVE U(_, _)
                U(rest, acc) == IF rest = <<>> THEN acc
@@ -189,8 +208,9 @@ ArrFilter(f, s) == CASE f = "sort" -> SortSeq(s, LAMBDA p, q : p < q)
                      [] f = "concat" -> s \o s
                      [] OTHER -> s
 
-Lookup(c, d, n) ==                                        \* locals, then data, then counters
+Lookup(c, d, n, g) ==                                     \* locals, then data, then the top-level template's globals, then counters
   IF Has(c.loc, n) THEN <<"n", Get(c.loc, n, "")>>
+  ELSE IF n = "gl" THEN (IF g = "" THEN Empty ELSE <<"n", g>>)
   ELSE IF n = "x" THEN <<"v", d.x>> ELSE IF n = "f" THEN <<"v", d.f>> ELSE IF n = "c" THEN <<"n", "7">>
   ELSE IF n = "a" THEN ArrTok(d.a)
   ELSE IF Has(c.cnt, n) THEN <<"n", Num(Get(c.cnt, n, 0))>>
@@ -210,7 +230,7 @@ Exec(o, st, e, did, dv) ==                                \* dv: deviations appl
                              ELSE LET rm == DateCall(m, Fillers[i], "gF", e) IN F(i + 1, rm[2], Append(acc, Shown(rm[1], e)))
              r == F(1, st.m, <<>>)
          IN [st EXCEPT !.m = r[1], !.o = @ \o r[2]]
-    [] o.op = "out" -> [st EXCEPT !.o = Append(@, Lookup(c, st.d, o.n))]
+    [] o.op = "out" -> [st EXCEPT !.o = Append(@, Lookup(c, st.d, o.n, st.g))]
     [] o.op = "incr" -> LET v == Get(c.cnt, o.n, 0) IN
          [st EXCEPT !.c.cnt = Put(@, o.n, v + 1), !.o = Append(@, <<"n", Num(v)>>)]
     [] o.op = "decr" -> LET v == Get(c.cnt, o.n, 0) - 1 IN
@@ -222,7 +242,7 @@ Exec(o, st, e, did, dv) ==                                \* dv: deviations appl
          IN [st EXCEPT !.c.cyc = Put(@, o.n, j), !.o = Append(@, <<"c", CycleItems[i + 1]>>),
                        !.nd = IF dv /\ Dev("StateOnNode") THEN [o EXCEPT !.k = IF j = 0 THEN "" ELSE Num(j)] ELSE o]
     [] o.op = "ifch" ->
-         LET t == Lookup(c, st.d, o.n) IN
+         LET t == Lookup(c, st.d, o.n, st.g) IN
          IF t = c.ifc THEN [st EXCEPT !.o = Append(@, Empty)] ELSE [st EXCEPT !.c.ifc = t, !.o = Append(@, t)]
     [] o.op = "forlim" ->                                 \* for i in a limit: 1
          LET s == ArrOf(st.d, o.n) IN
@@ -260,15 +280,24 @@ PureSeq(ops, i, st, e, did) ==
                     ELSE IF o.op = "ren" THEN {[sub EXCEPT !.c = st.c] : sub \in {PureSeq(Tmpl[o.n], 1, [fresh EXCEPT !.c = NoCtx], e, did)}}
                     ELSE {Exec(o, fresh, e, did, FALSE)}
        IN CHOOSE r \in { PureSeq(ops, i + 1, s2, e, did) : s2 \in after } : TRUE
-St0(d) == [c |-> NoCtx, m |-> <<>>, d |-> Data[d], o |-> <<>>, err |-> FALSE, nd |-> O("", "", "")]
-PureOf(j) == LET s == PureSeq(Tmpl[j.t], 1, St0(j.d), j.e, j.d) IN IF s.err THEN << <<"ERR">> >> ELSE s.o
+St0(d, g) == [c |-> NoCtx, m |-> <<>>, d |-> Data[d], g |-> g, o |-> <<>>, err |-> FALSE, nd |-> O("", "", "")]
+PureOf(j) == LET s == PureSeq(Tmpl[j.t], 1, St0(j.d, IF j.t \in ViaLoader THEN CallerGlobals ELSE NoGlobals), j.e, j.d) IN IF s.err THEN << <<"ERR">> >> ELSE s.o
 PureTab == [i \in 1..N |-> PureOf(Pool[i])]                \* constant: evaluated once
 Pure(i) == PureTab[i]
 
 -----------------------------------------------------------------------------
+(* A request to a caching loader for a template bound to globals g: <<cbind', the requester gets the shared object>>.   *)
+(* Required: the shared object is never re-bound - a request with other globals gets its own copy (same nodes).        *)
+(* Deviation CacheRebindsGlobals (the pinned tree): the shared object is bound to the latest request's globals.        *)
+CacheRequest(cb, key, g) ==
+  IF ~Has(cb, key) THEN <<Put(cb, key, g), TRUE>>                        \* miss: loaded, bound to g, cached
+  ELSE IF Get(cb, key, "") = g THEN <<cb, TRUE>>
+  ELSE IF Dev("CacheRebindsGlobals") THEN <<Put(cb, key, g), TRUE>>
+  ELSE <<cb, FALSE>>
+
 Init == /\ hist = <<>> /\ phase = "idle" /\ cur = 0 /\ pc = 0 /\ ctx = NoCtx /\ out = <<>>
         /\ memo = <<>> /\ lexm = {} /\ parm = {} /\ impl = {}
-        /\ tmpl = <<>> /\ kept = <<>>
+        /\ tmpl = <<>> /\ kept = <<>> /\ cbind = <<>> /\ hold = <<>>
         /\ data = Data
 
 (* The caller obtains the BoundTemplate (parsing the source on first use: the *)
@@ -283,16 +312,25 @@ RenderBegin(i) ==
         /\ parm' = IF Has(tmpl, key) THEN parm ELSE parm \cup {j.e}
         /\ impl' = IF Env[j.e].implicit THEN impl \cup {j.e} ELSE impl
         /\ ctx' = IF Dev("ContextKeptOnTemplate") THEN Get(kept, key, NoCtx) ELSE NoCtx
+        /\ IF j.t \in ViaLoader /\ ~Has(hold, key)                      \* env.get_template(t, globals = CallerGlobals)
+             THEN IF Env[j.e].caching
+                    THEN \E r \in {CacheRequest(cbind, key, CallerGlobals)} :
+                           cbind' = r[1] /\ hold' = Put(hold, key, [alias |-> r[2], own |-> CallerGlobals])
+                    ELSE cbind' = cbind /\ hold' = Put(hold, key, [alias |-> FALSE, own |-> CallerGlobals])
+             ELSE UNCHANGED <<cbind, hold>>
   /\ cur' = i /\ pc' = 1 /\ out' = <<>> /\ phase' = "run"
   /\ UNCHANGED <<hist, memo, kept, data>>
 
 Job == Pool[cur]
 TKey == <<Job.e, Job.t>>
 Nodes == Get(tmpl, TKey, <<>>)
+(* the globals of the object being rendered *)
+TopGlobals == IF ~Has(hold, TKey) THEN NoGlobals
+              ELSE IF Get(hold, TKey, 0).alias THEN Get(cbind, TKey, NoGlobals) ELSE Get(hold, TKey, 0).own
 
 Step ==
   /\ phase = "run" /\ pc <= Len(Nodes)
-  /\ \E o \in {Nodes[pc]} : \E st \in {[c |-> ctx, m |-> memo, d |-> data[Job.d], o |-> out, err |-> FALSE, nd |-> o]} :
+  /\ \E o \in {Nodes[pc]} : \E st \in {[c |-> ctx, m |-> memo, d |-> data[Job.d], g |-> TopGlobals, o |-> out, err |-> FALSE, nd |-> o]} :
      IF o.op \in {"inc", "ren"}
        THEN LET pkey == <<Job.e, o.n>>
                 cached == Env[Job.e].caching /\ Has(tmpl, pkey)
@@ -305,13 +343,14 @@ Step ==
                   /\ pc' = IF s2.err THEN Len(Nodes) + 1 ELSE pc + 1
                   /\ tmpl' = IF Env[Job.e].caching THEN Put(tmpl, pkey, r[2]) ELSE tmpl
                   /\ parm' = parm \cup {Job.e} /\ lexm' = lexm \cup {Env[Job.e].delims}
+                  /\ cbind' = IF Env[Job.e].caching THEN CacheRequest(cbind, pkey, NoGlobals)[1] ELSE cbind   \* the tag asks without globals
        ELSE \E s2 \in {Exec(o, st, Job.e, Job.d, TRUE)} :
                   /\ ctx' = s2.c /\ memo' = s2.m /\ data' = [data EXCEPT ![Job.d] = s2.d]
                   /\ out' = IF s2.err THEN << <<"ERR">> >> ELSE s2.o
                   /\ pc' = IF s2.err THEN Len(Nodes) + 1 ELSE pc + 1
                   /\ tmpl' = Put(tmpl, TKey, [Nodes EXCEPT ![pc] = s2.nd])
-                  /\ UNCHANGED <<parm, lexm>>
-  /\ UNCHANGED <<hist, phase, cur, impl, kept>>
+                  /\ UNCHANGED <<parm, lexm, cbind>>
+  /\ UNCHANGED <<hist, phase, cur, impl, kept, hold>>
 
 RenderEnd ==
   /\ phase = "run" /\ pc > Len(Nodes)
@@ -319,8 +358,9 @@ RenderEnd ==
   /\ kept' = IF Dev("ContextKeptOnTemplate") THEN Put(kept, TKey, ctx) ELSE kept
   /\ tmpl' = IF Env[Job.e].keep THEN tmpl                 \* the caller drops a template it does not keep
              ELSE SelectSeq(tmpl, LAMBDA p : p[1] # TKey)
+  /\ hold' = IF Env[Job.e].keep THEN hold ELSE SelectSeq(hold, LAMBDA p : p[1] # TKey)
   /\ ctx' = NoCtx /\ phase' = "idle" /\ cur' = 0 /\ pc' = 0 /\ out' = <<>>
-  /\ UNCHANGED <<memo, lexm, parm, impl, data>>
+  /\ UNCHANGED <<memo, lexm, parm, impl, data, cbind>>
 
 Next == (\E i \in 1..N : RenderBegin(i)) \/ Step \/ RenderEnd
 Spec == Init /\ [][Next]_vars
@@ -329,7 +369,8 @@ Spec == Init /\ [][Next]_vars
 (* The property.                                                              *)
 HistoryIndependent == \A i \in 1..Len(hist) : hist[i].res = Pure(hist[i].job)
 DataUnchanged == data = Data
-TemplateUnchanged == \A i \in 1..Len(tmpl) : tmpl[i][2] = Tmpl[tmpl[i][1][2]]
+TemplateUnchanged == /\ \A i \in 1..Len(tmpl) : tmpl[i][2] = Tmpl[tmpl[i][1][2]]                 \* the nodes
+                     /\ \A i \in 1..Len(hold) : hold[i][2].alias => Get(cbind, hold[i][1], NoGlobals) = hold[i][2].own   \* and what a held template is bound to
 (* per-render state is created by RenderBegin and does not exist between renders *)
 ContextFresh == (phase = "idle" => ctx = NoCtx) /\ (phase = "run" /\ pc = 1 => ctx = NoCtx)
 (* every memo entry is what formatting ANY argument with that key would give  *)
@@ -339,8 +380,9 @@ MemoSound == \A i \in 1..Len(memo) :
 MemoBounded == Len(memo) <= Cap /\ \A i, j \in 1..Len(memo) : i # j => memo[i].k # memo[j].k
 (* "HistoryIndependent holds exactly when Key separates observably different arguments": the static half *)
 KeySeparates == \A x, y \in DOMAIN Val : KeyOf(x) = KeyOf(y) => (DateRep(x) = DateRep(y) /\ Val[x].ty = Val[y].ty) \/ x = y
+ASSUME KeySeparates <=> ~Dev("MemoKeyedByEquality")
 (* the process-wide lexer / parser / implicit-environment memos only ever hold keys of environments that were used *)
-MemoKeysUsed == parm \subseteq DOMAIN Env /\ impl \subseteq {e \in DOMAIN Env : Env[e].implicit} /\ lexm \subseteq {"std"}
+MemoKeysUsed == parm \subseteq DOMAIN Env /\ impl \subseteq {e \in DOMAIN Env : Env[e].implicit} /\ lexm \subseteq {"std", "alt"}
 
 -----------------------------------------------------------------------------
 (* What the harness replays.                                                  *)
@@ -361,6 +403,6 @@ Emit == Done => PrintT(ToJson([kind |-> "history", jobs |-> [i \in 1..Len(hist) 
 (* the pool itself, printed once: the jobs, their operations and F(job)       *)
 PoolRecord == [kind |-> "pool", family |-> Family,
                jobs |-> [i \in 1..N |-> [t |-> Pool[i].t, d |-> Pool[i].d, e |-> Pool[i].e, ops |-> Tmpl[Pool[i].t], pure |-> Pure(i)]],
-               partials |-> [p \in Partials |-> Tmpl[p]], env |-> Env, data |-> Data, val |-> Val, fillers |-> Fillers]
+               partials |-> [p \in Partials |-> Tmpl[p]], vialoader |-> ViaLoader, callerglobals |-> CallerGlobals, env |-> Env, data |-> Data, val |-> Val, fillers |-> Fillers]
 ASSUME PrintT(ToJson(PoolRecord))
 =============================================================================
